@@ -201,3 +201,9 @@ mod tests {
         }
     }
 }
+
+// Verification hook (guard: --cfg p3r_verif, only under Kani): harness source lives in /verif.
+#[cfg(all(kani, p3r_verif))]
+mod verif_kani {
+    include!(concat!(env!("P3R_VERIF_DIR"), "/kani/analysis.rs"));
+}
